@@ -84,6 +84,67 @@ def container_eq_after_assignment(k, a, b, c, d, e, f, which):
     return first and second and third
 
 
+# ---------------------------------------------------------------- operands in other guises
+import weakref  # noqa: E402
+
+
+class _Pos(L.Position):
+    """a stateless user subclass (helper methods only) is still a position"""
+
+    def describe(self):
+        return "%d:%d" % (self.line, self.character)
+
+
+class _Span(L.Range):
+    pass
+
+
+class _FileLocation(L.Location):
+    pass
+
+
+_KEEP = []  # live weak references
+
+
+def guise(obj_factory, sub_factory, g):
+    """g = 0: plain instance; 1: instance of a stateless subclass; 2: plain instance some cache holds a weak reference to"""
+    if g == 1:
+        return sub_factory()
+    o = obj_factory()
+    if g == 2:
+        del _KEEP[:-8]
+        _KEEP.append(weakref.ref(o))
+    return o
+
+
+def op_agrees_guises(op, a, b, c, d, gl, gr):
+    from vlib.xhrt import concretize
+
+    gl, gr = concretize(gl, 3), concretize(gr, 3)
+    f = OPS[op]
+    x = guise(lambda: L.Position(a, b), lambda: _Pos(a, b), gl)
+    y = guise(lambda: L.Position(c, d), lambda: _Pos(c, d), gr)
+    r = f(x, y)
+    return (r is True or r is False) and r == f((a, b), (c, d))
+
+
+def container_eq_guises(k, a, b, c, d, e, f, gl, gr, gi):
+    """Range (k=1) / Location (k=2) equality is structural whatever the guise of the operands or of a nested component"""
+    from vlib.xhrt import concretize
+
+    gl, gr, gi = concretize(gl, 3), concretize(gr, 3), concretize(gi, 3)
+    inner = lambda p, q: guise(lambda: L.Position(p, q), lambda: _Pos(p, q), gi)  # noqa: E731
+    if k == 1:
+        x = guise(lambda: L.Range(inner(a, b), L.Position(c, d)), lambda: _Span(inner(a, b), L.Position(c, d)), gl)
+        y = guise(lambda: L.Range(L.Position(e, f), L.Position(c, d)), lambda: _Span(L.Position(e, f), L.Position(c, d)), gr)
+    else:
+        rng = lambda p, q: guise(lambda: L.Range(L.Position(p, q), L.Position(c, d)), lambda: _Span(L.Position(p, q), L.Position(c, d)), gi)  # noqa: E731
+        x = guise(lambda: L.Location("u", rng(a, b)), lambda: _FileLocation("u", rng(a, b)), gl)
+        y = guise(lambda: L.Location("u", rng(e, f)), lambda: _FileLocation("u", rng(e, f)), gr)
+    want = (a, b) == (e, f)
+    return (x == y) == want and (x != y) == (not want) and (y == x) == want
+
+
 def subject(k, a, b):
     return [P(a, b), R(a, b, a, b), Loc("u", a, b, a, b)][k]
 
